@@ -1,0 +1,112 @@
+//go:build verif
+
+package certmagic
+
+import (
+	"context"
+	"sort"
+	"time"
+
+	"github.com/mholt/acmez/v3"
+	"github.com/mholt/acmez/v3/acme"
+	"go.uber.org/zap"
+)
+
+// Verification hooks (build tag "verif" only) for the rate limiter (ratelimiter.go,
+// acmeclient.go throttle), the retry loop and the job manager (async.go) and the CA
+// selection of the ACME issuer. Thin wrappers and snapshots; no existing code is changed.
+
+// VerifRateLimiterSnapshot returns a copy of r's ring, its cursor and its window, read
+// under r's mutex.
+func VerifRateLimiterSnapshot(r *RingBufferRateLimiter) (ring []time.Time, cursor int, window time.Duration) {
+	r.mu.Lock()
+	defer r.mu.Unlock()
+	ring = make([]time.Time, len(r.ring))
+	copy(ring, r.ring)
+	return ring, r.cursor, r.window
+}
+
+// VerifThrottle calls acmeClient.throttle for an issuer and a directory URL.
+func VerifThrottle(ctx context.Context, iss *ACMEIssuer, directory string, names []string) error {
+	c := &acmeClient{iss: iss, acmeClient: &acmez.Client{Client: &acme.Client{Directory: directory}}}
+	return c.throttle(ctx, names)
+}
+
+// VerifRateLimiterFor returns the rate limiter registered under key, if any.
+func VerifRateLimiterFor(key string) (*RingBufferRateLimiter, bool) {
+	rateLimitersMu.Lock()
+	defer rateLimitersMu.Unlock()
+	rl, ok := rateLimiters[key]
+	return rl, ok
+}
+
+// VerifRateLimiterKeys returns the keys of all registered rate limiters, sorted.
+func VerifRateLimiterKeys() []string {
+	rateLimitersMu.Lock()
+	defer rateLimitersMu.Unlock()
+	var ks []string
+	for k := range rateLimiters {
+		ks = append(ks, k)
+	}
+	sort.Strings(ks)
+	return ks
+}
+
+// VerifACMEClientDirectory reports which directory URL newACMEClient selects for
+// useTestCA, and what acmeClient.usingTestCA says about it.
+func VerifACMEClientDirectory(iss *ACMEIssuer, useTestCA bool) (directory string, usingTestCA bool, err error) {
+	client, err := iss.newACMEClient(useTestCA)
+	if err != nil {
+		return "", false, err
+	}
+	c := &acmeClient{iss: iss, acmeClient: client}
+	return client.Directory, c.usingTestCA(), nil
+}
+
+// VerifDoWithRetry exposes doWithRetry.
+func VerifDoWithRetry(ctx context.Context, log *zap.Logger, f func(context.Context) error) error {
+	return doWithRetry(ctx, log, f)
+}
+
+// VerifRetryIntervals returns a copy of retryIntervals; VerifMaxRetryDuration the constant.
+func VerifRetryIntervals() []time.Duration {
+	return append([]time.Duration(nil), retryIntervals...)
+}
+
+const VerifMaxRetryDuration = maxRetryDuration
+
+// VerifSetRetryIntervals replaces the package variable retryIntervals and returns a
+// function that restores the previous table.
+func VerifSetRetryIntervals(iv []time.Duration) (restore func()) {
+	old := retryIntervals
+	retryIntervals = append([]time.Duration(nil), iv...)
+	return func() { retryIntervals = old }
+}
+
+// VerifJobManager wraps a private jobManager instance.
+type VerifJobManager struct{ jm *jobManager }
+
+// VerifNewJobManager returns a fresh job manager with the given worker limit.
+func VerifNewJobManager(maxConcurrentJobs int) *VerifJobManager {
+	return &VerifJobManager{jm: &jobManager{maxConcurrentJobs: maxConcurrentJobs}}
+}
+
+// Submit exposes jobManager.Submit.
+func (v *VerifJobManager) Submit(logger *zap.Logger, name string, job func() error) {
+	v.jm.Submit(logger, name, job)
+}
+
+// Snapshot returns the names of the queued jobs in order, the sorted name set and the
+// worker count, read under the manager's mutex.
+func (v *VerifJobManager) Snapshot() (queue []string, names []string, activeWorkers int) {
+	v.jm.mu.Lock()
+	defer v.jm.mu.Unlock()
+	for _, j := range v.jm.queue {
+		queue = append(queue, j.name)
+	}
+	for n := range v.jm.names {
+		names = append(names, n)
+	}
+	sort.Strings(names)
+	return queue, names, v.jm.activeWorkers
+}
